@@ -55,12 +55,15 @@ THEOREMS = [
     "PorepyVerif.C35.slice_indices_mask_eq",
     "PorepyVerif.C35.sparse_kronecker_product_dense",
     "PorepyVerif.C35.optimized_storage_spec",
+    "PorepyVerif.C35.copy_eq",
+    "PorepyVerif.C35.row_col_data_rebuilds_dense",
+    "PorepyVerif.C35.slice_then_zero_dense",
 ]
 LEAN_MODULES = ["PorepyVerif.C35.Props"]
 AUDIT = "PorepyVerif/C35/Audit.lean"
 DRIVER = "PorepyVerif/C35/Driver.lean"
 N = {"quick": 2000, "thorough": 60000}
-RULE = ("one call of one utility per case (function drawn from 23 kinds, see input_distribution); matrices: csr or csc, 0-6 lines x 0-5 "
+RULE = ("one call of one utility per case (function drawn from 26 kinds, see input_distribution; explicit strata: 1x1 / single line, wide/tall, no stored entry, decreasing or repeated-same indices, values of scale 2^+-60, reversed and fully permuted line sets, chained calls); matrices: csr or csc, 0-6 lines x 0-5 "
         "minor entries, 30% empty lines, styles canonical / unsorted indices / duplicate indices / full / nearly empty, 15% explicit "
         "zeros, values small dyadic rationals (binary64 exact); line sets: sorted, unsorted, repeated (where the code allows it), empty, "
         "boolean masks, scalars; counts with zeros; blocks of size zero; ~6% documented-error inputs (wrong format, shape mismatch, "
@@ -81,7 +84,7 @@ EXPLANATION = (
     "expand_index_pointers (= concatenated ranges, with broadcasting and the ValueError), rldecode (= np.repeat), rlencode (= maximal runs) and the round trip "
     "rldecode(rlencode(A)) = A, zero_rows/zero_columns (dense zeroing, structure untouched), slice_sparse_matrix (unsorted / repeated / empty index lists), "
     "slice_indices (both outputs, array / scalar form), merge_matrices (= A[lines,:] = B for every duplicate-free line list, sorted or not, incl. the argsort path), "
-    "stack_mat, stack_diag (repaired behaviour, see the known finding), cs?_matrix_from_sparse_blocks (any number of blocks, zero-size blocks), "
+    "stack_mat, stack_diag (incl. the B.shape == (0, 0) shortcut as coded now), cs?_matrix_from_sparse_blocks (any number of blocks, zero-size blocks), "
     "cs?_matrix_from_dense_blocks (incl. block_size 1 and num_blocks 0, and the ValueError), block_diag_matrix, block_diag_index(m) and block_diag_index(m, n) "
     "(= coordinates of the block-diagonal entries, zero sizes allowed), expand_indices_nd (F and C order), expand_indices_add_increment, and the Kronecker reference "
     "kron(A, I_nd) in compressed form (= dense Kronecker product; nd = 1 is the identity). "
@@ -95,10 +98,12 @@ EXPLANATION = (
     "scipy's own conversions and kron (asformat, tocsr/tocsc, sps.kron are black boxes: sparse_kronecker_product and optimized_compressed_storage are compared on dense "
     "output with proved reference models kronI / denseToCsr; a csc input of sparse_kronecker_product goes through the transposed reading in the harness); "
     "the IndexError corner of rldecode/block_diag_index for count vectors longer than the values. "
-    "ORACLE ONLY (no model): copy, sparse_array_to_row_col_data, sparse_dia_from_sparse_blocks. "
+    "ORACLE ONLY (no model): sparse_dia_from_sparse_blocks. "
     "Correspondence compares the raw arrays (indptr, indices, data) AND the dense reading exactly, index outputs exactly, exceptions by class. "
-    "Known finding (open): stack_diag returns A unchanged when B has no lines but a non-zero minor dimension (shape differs from the dense block diagonal); "
-    "fixes/C35-stack-diag-empty-B.diff. Regression inputs of the two defects already repaired in /repo (rldecode zero counts, merge_matrices unsorted lines) are in corpus/C35."
+    "No open finding: the stack_diag defect found here (B without lines but non-zero minor dimension) was repaired in /repo (962d765f1, fixes/C35-stack-diag-empty-B.diff); "
+    "regression inputs of it and of the two earlier repairs (rldecode zero counts, merge_matrices unsorted lines) are in corpus/C35. "
+    "Also proved: copy (same arrays), sparse_array_to_row_col_data (triplets rebuild the dense matrix, remove_nz drops exactly the zeros), chained calls (slice then zero). "
+    "The driver evaluates every decidable theorem hypothesis (Csr.WF of each input, line indices in range, mask length, merge checks) on every case; the harness fails if one is false on a non-error case."
 )
 ASSUMPTIONS = [
     "matrix values are exact in binary64 (dyadic generator) and no arithmetic other than copying/zeroing/summing duplicates happens, so rational model and float code agree exactly",
@@ -109,22 +114,35 @@ FMTS = ("csr", "csc")
 
 
 # ----------------------------------------------------------------------------- generators
-def _val(rng):
+def _val(rng, scale=1):
     if rng.random() < 0.15:
         return "0"
-    return frac(Fraction(rng.choice([-1, 1]) * rng.randint(1, 24), rng.choice([1, 1, 2, 4, 8])))
+    return frac(scale * Fraction(rng.choice([-1, 1]) * rng.randint(1, 24), rng.choice([1, 1, 2, 4, 8])))
 
 
 def gen_mat(rng, fmt=None, major=None, minor=None):
     """random compressed matrix as a JSON dict; major = number of lines (rows for csr, columns for csc)"""
     fmt = fmt or rng.choice(FMTS)
-    nmaj = major if major is not None else rng.choice([0, 1, 1, 2, 3, 3, 4, 5, 6])
-    nmin = minor if minor is not None else rng.choice([0, 1, 2, 3, 3, 4, 5])
-    style = rng.choice(["canon", "canon", "unsorted", "unsorted", "dups", "full", "sparse"])
+    stratum = rng.random()
+    if stratum < 0.06:      # stratum: 1 x 1 / single line / single minor entry
+        dmaj, dmin = rng.choice([(1, 1), (1, rng.randint(1, 5)), (rng.randint(1, 6), 1)])
+    elif stratum < 0.10:    # stratum: wide or tall (many more lines than minor entries and vice versa)
+        dmaj, dmin = rng.choice([(rng.randint(8, 12), rng.randint(1, 2)), (rng.randint(1, 2), rng.randint(8, 12))])
+    else:
+        dmaj, dmin = rng.choice([0, 1, 1, 2, 3, 3, 4, 5, 6]), rng.choice([0, 1, 2, 3, 3, 4, 5])
+    nmaj = major if major is not None else dmaj
+    nmin = minor if minor is not None else dmin
+    style = rng.choice(["canon", "canon", "unsorted", "unsorted", "dups", "full", "sparse", "empty", "reversed", "samecol"])
+    # stratum: extreme scale - the whole matrix is scaled by 2^+-60 (exact in binary64; duplicates are summed at one scale only)
+    scale = Fraction(2) ** rng.choice([-60, 60]) if rng.random() < 0.05 else 1
     indptr, indices, data = [0], [], []
     for _ in range(nmaj):
-        if nmin == 0 or rng.random() < (0.7 if style == "sparse" else 0.3):
-            cols = []
+        if nmin == 0 or style == "empty" or rng.random() < (0.7 if style == "sparse" else 0.3):
+            cols = []          # stratum "empty": a matrix without any stored entry
+        elif style == "reversed":
+            cols = sorted(rng.sample(range(nmin), rng.randint(1, nmin)), reverse=True)   # stratum: strictly decreasing indices
+        elif style == "samecol":
+            cols = [rng.randrange(nmin)] * rng.randint(2, 4)                             # stratum: one index stored several times
         elif style == "canon":
             cols = sorted(rng.sample(range(nmin), rng.randint(1, nmin)))
         elif style == "unsorted":
@@ -136,7 +154,7 @@ def gen_mat(rng, fmt=None, major=None, minor=None):
         else:
             cols = [rng.randrange(nmin)]
         indices += cols
-        data += [_val(rng) for _ in cols]
+        data += [_val(rng, scale) for _ in cols]
         indptr.append(len(indices))
     shape = [nmaj, nmin] if fmt == "csr" else [nmin, nmaj]
     return {"fmt": fmt, "shape": shape, "indptr": indptr, "indices": indices, "data": data}
@@ -154,7 +172,11 @@ def gen_lines(rng, n, repeat_ok=True):
     """index set into range(n): sorted / unsorted / repeated / empty / all"""
     if n == 0:
         return []
-    kind = rng.choice(["sorted", "unsorted", "unsorted", "repeat", "empty", "all", "single"])
+    kind = rng.choice(["sorted", "unsorted", "unsorted", "repeat", "empty", "all", "single", "reversed", "permutation"])
+    if kind == "reversed":      # stratum: all lines in decreasing order
+        return list(range(n - 1, -1, -1))
+    if kind == "permutation":   # stratum: a random permutation of all lines
+        return rng.sample(range(n), n)
     if kind == "empty":
         return []
     if kind == "all":
@@ -175,7 +197,7 @@ KINDS = [
     ("zero", 8), ("slice", 8), ("slice_mask", 3), ("slice_int", 2), ("slice_indices", 4), ("slice_indices_mask", 2),
     ("slice_indices_int", 2), ("merge", 12), ("stack_mat", 6), ("stack_diag", 6), ("from_sparse_blocks", 7),
     ("from_dense_blocks", 5), ("rlencode", 6), ("rldecode", 6), ("eip", 8), ("bdi", 6), ("bdi_sq", 3), ("bdm", 3),
-    ("kron", 4), ("nd", 3), ("incr", 2), ("opt", 1), ("extras", 2),
+    ("kron", 4), ("nd", 3), ("incr", 2), ("opt", 1), ("extras", 2), ("copy", 1), ("triplets", 3), ("slice_zero", 3),
 ]
 _KW = [k for k, w in KINDS for _ in range(w)]
 
@@ -312,6 +334,14 @@ def gen_case(rng, tier):
         return {"fn": fn, "x": [rng.randint(-3, 9) for _ in range(k)], "n": rng.choice([0, 1, 2, 3]), "increment": rng.randint(-5, 200)}
     if fn == "opt":
         return {"fn": fn, "A": gen_mat(rng), "src": rng.choice(["csr", "csc", "coo"])}
+    if fn == "copy":
+        return {"fn": fn, "A": gen_mat(rng)}
+    if fn == "triplets":
+        return {"fn": fn, "A": gen_mat(rng), "remove_nz": rng.random() < 0.5}
+    if fn == "slice_zero":   # stratum: repeated operations (the output of one utility is the input of the next)
+        A = gen_mat(rng)
+        ind = gen_lines(rng, major(A))
+        return {"fn": fn, "A": A, "ind": ind, "lines": gen_lines(rng, len(ind))}
     return {"fn": "extras", "A": gen_mat(rng), "diag": [[_val(rng) for _ in range(rng.randint(0, 3))] for _ in range(rng.randint(0, 3))]}
 
 
@@ -462,6 +492,14 @@ def call_impl(case):
         return ao.expand_indices_add_increment(_ia(case["x"]), case["n"], case["increment"])
     if fn == "opt":
         return mo.optimized_compressed_storage(_src(case))
+    if fn == "copy":
+        return mo.copy(to_scipy(case["A"]))
+    if fn == "triplets":
+        return mo.sparse_array_to_row_col_data(to_scipy(case["A"]), case["remove_nz"])
+    if fn == "slice_zero":
+        S = mo.slice_sparse_matrix(to_scipy(case["A"]), _ia(case["ind"]))
+        (mo.zero_rows if S.format == "csr" else mo.zero_columns)(S, _ia(case["lines"]))
+        return S
     return None
 
 
@@ -482,8 +520,16 @@ def impl_run(case):
         r = call_impl(case)
     except Exception as e:
         return err_kind(e)
-    if fn in ("zero", "slice", "slice_mask", "slice_int", "merge", "stack_mat", "stack_diag", "from_sparse_blocks", "from_dense_blocks", "bdm"):
+    if fn in ("zero", "slice", "slice_mask", "slice_int", "merge", "stack_mat", "stack_diag", "from_sparse_blocks", "from_dense_blocks", "bdm", "copy", "slice_zero"):
         return canon(r)
+    if fn == "triplets":
+        i, j, v = r
+        if case["A"]["fmt"] == "csc":
+            i, j = j, i
+        D = np_dense(case["A"]) if case["A"]["fmt"] == "csr" else np_dense(case["A"]).T
+        R = np.zeros(D.shape)
+        np.add.at(R, (np.asarray(i, dtype=int), np.asarray(j, dtype=int)), v)
+        return {"line": _ints(i), "minor": _ints(j), "data": [frac(x) for x in v], "dense": [[frac(x) for x in row] for row in R]}
     if fn in ("slice_indices", "slice_indices_mask"):
         return {"indices": _ints(r[0]), "array_ind": _ints(r[1])}
     if fn == "slice_indices_int":
@@ -565,6 +611,12 @@ def model_ops(case):
         return [{"op": fn, "ind": case["ind"], "nd": case["nd"], "orderF": case["order"] == "F"}]
     if fn == "incr":
         return [{"op": fn, "x": case["x"], "n": case["n"], "increment": case["increment"]}]
+    if fn == "copy":
+        return [{"op": fn, "A": reading(case["A"]), "fmt": case["A"]["fmt"]}]
+    if fn == "triplets":
+        return [{"op": fn, "A": reading(case["A"]), "remove_nz": case["remove_nz"]}]
+    if fn == "slice_zero":
+        return [{"op": fn, "A": reading(case["A"]), "fmt": case["A"]["fmt"], "ind": case["ind"], "lines": case["lines"]}]
     if fn == "opt":
         # scipy converts the source (csr / csc / coo) to csr for the model; the model decides the format and keeps the dense matrix
         return [{"op": fn, "A": reading(from_scipy(_src(case).tocsr()))}]
@@ -582,7 +634,7 @@ def compare(impl, model, case):
     if isinstance(impl, dict) and "harness_exc" in impl:
         return f"harness exception in impl_run: {impl['harness_exc']}"
     if isinstance(model, dict) and "wf_in" in model and not all(model["wf_in"]):
-        return "generator produced a matrix that violates Csr.WF (harness defect)"
+        return "an input violates a theorem hypothesis (Csr.WF, line indices in range, mask length) as evaluated by the driver - harness defect"
     if isinstance(impl, dict) and isinstance(model, dict) and "err" not in impl and "err" not in model:
         a = {k: v for k, v in impl.items() if k not in _SKIP}
         b = {k: v for k, v in model.items() if k not in _SKIP}
@@ -864,6 +916,31 @@ def oracle(case):
         if _ints(r) != ref:
             return _fail("incr-differs", f"expand_indices_add_increment = {_ints(r)} != {ref}", case)
         return None
+    if fn == "copy":
+        A = case["A"]
+        if r.format != A["fmt"] or _ints(r.indices) != A["indices"] or _ints(r.indptr) != A["indptr"] or not _same(r, np_dense(A)):
+            return _fail("copy-differs", "copy(A) changed format, index order or values", case)
+        return None
+    if fn == "triplets":
+        D = np_dense(case["A"])
+        i, j, v = r
+        R = np.zeros(D.shape)
+        np.add.at(R, (np.asarray(i, dtype=int), np.asarray(j, dtype=int)), v)
+        if not np.array_equal(R, D) or (case["remove_nz"] and np.any(np.asarray(v) == 0)):
+            return _fail("row_col_data-differs", f"sparse_array_to_row_col_data(remove_nz={case['remove_nz']}) does not rebuild A / keeps zeros", case)
+        return None
+    if fn == "slice_zero":
+        A = case["A"]
+        D = np_dense(A)
+        if A["fmt"] == "csr":
+            ref = D[_ia(case["ind"]), :]
+            ref[case["lines"], :] = 0
+        else:
+            ref = D[:, _ia(case["ind"])]
+            ref[:, case["lines"]] = 0
+        if not _same(r, ref):
+            return _fail("slice_zero-differs-from-dense", "zero_* applied to slice_sparse_matrix(A, ind) != dense slicing followed by dense zeroing", case)
+        return None
     if fn == "opt":
         D = np_dense(case["A"])
         want = "csc" if D.shape[0] > D.shape[1] else "csr"
@@ -904,7 +981,9 @@ def nontrivial(case):
 def stats(cases, impl_outs):
     by_fn, errs = {}, 0
     feat = {"csr": 0, "csc": 0, "empty_lines": 0, "zero_size": 0, "unsorted_indices": 0, "duplicate_indices": 0, "explicit_zeros": 0,
-            "unsorted_line_sets": 0, "repeated_line_sets": 0, "empty_line_sets": 0, "zero_counts": 0, "stack_diag_B_without_lines": 0}
+            "unsorted_line_sets": 0, "repeated_line_sets": 0, "empty_line_sets": 0, "zero_counts": 0, "stack_diag_B_without_lines": 0,
+            "size_1x1": 0, "single_line": 0, "wide_or_tall": 0, "no_stored_entry": 0, "decreasing_indices": 0, "extreme_scale_values": 0,
+            "reversed_line_sets": 0, "full_permutation_line_sets": 0, "chained_calls": 0}
     for c, o in zip(cases, impl_outs):
         by_fn[c["fn"]] = by_fn.get(c["fn"], 0) + 1
         if isinstance(o, dict) and "err" in o:
@@ -919,15 +998,24 @@ def stats(cases, impl_outs):
             feat["unsorted_indices"] += any(s != sorted(s) for s in segs)
             feat["duplicate_indices"] += any(len(set(s)) != len(s) for s in segs)
             feat["explicit_zeros"] += "0" in m["data"]
+            feat["size_1x1"] += m["shape"] == [1, 1]
+            feat["single_line"] += len(ip) == 2
+            feat["wide_or_tall"] += max(m["shape"]) >= 8
+            feat["no_stored_entry"] += not m["indices"] and 0 not in m["shape"]
+            feat["decreasing_indices"] += any(len(s) > 1 and all(a > b for a, b in zip(s, s[1:])) for s in segs)
+            feat["extreme_scale_values"] += any(abs(Fraction(v)) >= 2 ** 50 or 0 < abs(Fraction(v)) <= Fraction(1, 2 ** 50) for v in m["data"])
         for k in ("lines", "ind"):
             if k in c:
                 l = c[k]
                 feat["unsorted_line_sets"] += l != sorted(l)
                 feat["repeated_line_sets"] += len(set(l)) != len(l)
                 feat["empty_line_sets"] += not l
+                feat["reversed_line_sets"] += len(l) > 1 and l == sorted(l, reverse=True)
+                feat["full_permutation_line_sets"] += len(l) > 1 and sorted(l) == list(range(len(l))) and l != sorted(l)
         for k in ("n", "m", "sz"):
             if k in c and isinstance(c[k], list):
                 feat["zero_counts"] += 0 in c[k]
+        feat["chained_calls"] += c["fn"] == "slice_zero"
         if c["fn"] == "stack_diag" and major(c["B"]) == 0:
             feat["stack_diag_B_without_lines"] += 1
     return {"by_function": by_fn, "error_outcomes": errs, "features": feat}
